@@ -397,3 +397,163 @@ def subst_arity_consistent(t_unit: Any) -> bool:
     for r in knl.substitutions.values():
         walk(r.expression)
     return ok[0]
+
+
+# ---------------------------------------------------------------------------
+# attribution experiment: loopy's `//` and `%` on integers are FLOOR operations; its C
+# printer emits the truncating C operators when it believes the operands non-negative.
+# Rewriting every integer `/` and `%` inside array subscripts of the emitted C text to
+# floor operations must not change anything if that belief is right.
+
+_FLOOR_HELPERS = """
+static inline long long vf_fdiv(long long a, long long b)
+{ long long q = a / b; return ((a % b != 0) && ((a < 0) != (b < 0))) ? q - 1 : q; }
+static inline long long vf_fmod(long long a, long long b)
+{ long long r = a % b; return ((r != 0) && ((r < 0) != (b < 0))) ? r + b : r; }
+"""
+
+
+class _SubscriptParser:
+    """Recursive descent over the integer-expression subset loopy emits in subscripts."""
+    import re as _re
+    TOK = _re.compile(r"\s*(?:([A-Za-z_]\w*)|(\d+[uUlL]*)|([-+*/%()\[\],]))")
+
+    def __init__(self, text: str):
+        self.toks: list[tuple[str, str]] = []
+        pos = 0
+        text = text.rstrip()
+        while pos < len(text):
+            m = self.TOK.match(text, pos)
+            if m is None:
+                raise ValueError("unsupported token")
+            pos = m.end()
+            if m.group(1):
+                self.toks.append(("id", m.group(1)))
+            elif m.group(2):
+                self.toks.append(("int", m.group(2)))
+            else:
+                self.toks.append(("op", m.group(3)))
+        self.i = 0
+        self.rewrites = 0
+
+    def peek(self) -> str | None:
+        return self.toks[self.i][1] if self.i < len(self.toks) and \
+            self.toks[self.i][0] == "op" else None
+
+    def take(self, op: str) -> None:
+        if self.peek() != op:
+            raise ValueError(f"expected {op}")
+        self.i += 1
+
+    def expr(self) -> str:
+        s = self.term()
+        while self.peek() in ("+", "-"):
+            op = self.toks[self.i][1]
+            self.i += 1
+            s = f"{s} {op} {self.term()}"
+        return s
+
+    def term(self) -> str:
+        s = self.unary()
+        while self.peek() in ("*", "/", "%"):
+            op = self.toks[self.i][1]
+            self.i += 1
+            r = self.unary()
+            if op == "*":
+                s = f"{s} * {r}"
+            else:
+                self.rewrites += 1
+                s = f"{'vf_fdiv' if op == '/' else 'vf_fmod'}({s}, {r})"
+        return s
+
+    def unary(self) -> str:
+        if self.peek() in ("-", "+"):
+            op = self.toks[self.i][1]
+            self.i += 1
+            return f"{op}{self.unary()}"
+        return self.postfix()
+
+    def postfix(self) -> str:
+        if self.i >= len(self.toks):
+            raise ValueError("unexpected end")
+        kind, val = self.toks[self.i]
+        if kind in ("id", "int"):
+            self.i += 1
+            s = val
+        elif val == "(":
+            self.i += 1
+            s = f"({self.expr()})"
+            self.take(")")
+        else:
+            raise ValueError("unexpected operator")
+        while self.peek() in ("[", "("):
+            if self.peek() == "[":
+                self.i += 1
+                s = f"{s}[{self.expr()}]"
+                self.take("]")
+            else:
+                if kind != "id":
+                    raise ValueError("call of a non-identifier (cast?)")
+                self.i += 1
+                args = []
+                if self.peek() != ")":
+                    args.append(self.expr())
+                    while self.peek() == ",":
+                        self.i += 1
+                        args.append(self.expr())
+                self.take(")")
+                s = f"{s}({', '.join(args)})"
+        return s
+
+    def parse(self) -> str:
+        s = self.expr()
+        if self.i != len(self.toks):
+            raise ValueError("trailing tokens")
+        return s
+
+
+def floor_subscript_code(code: str) -> tuple[str, int] | None:
+    """The C text with floor semantics for every `/`, `%` in array subscripts; None when a
+    subscript is outside the supported expression subset.  -> (code, number of rewrites)"""
+    out: list[str] = []
+    i = 0
+    n_rw = 0
+    while i < len(code):
+        c = code[i]
+        if c != "[":
+            out.append(c)
+            i += 1
+            continue
+        depth, j = 1, i + 1
+        while j < len(code) and depth:
+            depth += {"[": 1, "]": -1}.get(code[j], 0)
+            j += 1
+        if depth:
+            return None
+        inner = code[i + 1:j - 1]
+        if inner.strip():
+            try:
+                p = _SubscriptParser(inner)
+                inner = p.parse()
+                n_rw += p.rewrites
+            except ValueError:
+                return None
+        out.append(f"[{inner}]")
+        i = j
+    text = "".join(out)
+    # helpers after the includes
+    lines = text.split("\n")
+    k = max((n for n, ln in enumerate(lines) if ln.startswith("#include")), default=-1)
+    lines.insert(k + 1, _FLOOR_HELPERS)
+    return "\n".join(lines), n_rw
+
+
+def floor_subscript_variant(cp: Compiled) -> Compiled | None:
+    r = floor_subscript_code(cp.code)
+    if r is None or r[1] == 0:
+        return None
+    try:
+        lib = compile_c(r[0])
+    except CodegenFailure:
+        return None
+    return Compiled(cp.t_unit, r[0], lib, cp.fname, cp.params, cp.kernel)
